@@ -872,13 +872,16 @@ class GraphProcessor:
         try:
             if not create:
                 graph_instance = None
-                sel_choice_opt_idx, sel_choice_is_active, i_comb = self._hierarchy_analyzer.get_opt_idx(
+                sel_choice_opt_idx_imp, sel_choice_is_active, i_comb = self._hierarchy_analyzer.get_opt_idx(
                     sel_choice_opt_idx, mask=self._existence_mask, is_fixed=is_fixed, exclude=self._excluded_cache)
 
                 # If the combination idx is not known (fast encoder),
                 # we need to actually create the graph to know which nodes exist
+                # (starting from the given values again, to get the same result as when directly creating the graph)
                 if i_comb is None:
                     create = True
+                else:
+                    sel_choice_opt_idx = sel_choice_opt_idx_imp
 
             if create:
                 graph_instance, sel_choice_opt_idx, sel_choice_is_active, i_comb = self._hierarchy_analyzer.get_graph(
